@@ -23,7 +23,8 @@ import (
 )
 
 // C27 (storage layer) — membership follows the pledge/accept/cancel/remove
-// lifecycle. Explicit-state BFS over histories of real node transactions
+// lifecycle. Explicit-state BFS over histories (with non-monotone timestamps,
+// see enabled) of real node transactions
 // finalized with WriteTransaction + WriteSnapshot, WITHOUT Validate, so that
 // invalid operations reach the durable transition checks of
 // writeNodePledge/Accept/Cancel/Remove. The reference model is the list of
@@ -167,14 +168,18 @@ func c27Sort(recs []c27Rec) []c27Rec {
 }
 
 type c27Counters struct {
-	par, pc         atomic.Int64 // canonical sequences seen accepted inside the BFS
-	accepted        [4]atomic.Int64
-	rejected        [4]atomic.Int64
-	equalTsAccepted atomic.Int64 // an accepted record sharing its timestamp with another signer's record
-	mismatchReject  atomic.Int64 // rejected only because of the payee
-	naturalInput    atomic.Int64
-	fundedInput     atomic.Int64
-	deposits        atomic.Int64
+	par, pc          atomic.Int64 // canonical sequences seen accepted inside the BFS
+	accepted         [4]atomic.Int64
+	rejected         [4]atomic.Int64
+	equalTsAccepted  atomic.Int64    // an accepted record sharing its timestamp with another signer's record
+	oooAccepted      [4]atomic.Int64 // accepted although stamped before the newest record
+	oooRejected      [4]atomic.Int64
+	boundaryRejected atomic.Int64 // out-of-order, newest record exactly at the end of the look-ahead, rejected
+	reRemoveInside   atomic.Int64 // second remove stamped between the node's accept and its first remove, rejected
+	mismatchReject   atomic.Int64 // rejected only because of the payee
+	naturalInput     atomic.Int64
+	fundedInput      atomic.Int64
+	deposits         atomic.Int64
 }
 
 // c27State = real ledger + driver wallet + reference history.
@@ -229,7 +234,7 @@ func c27New(a *c27Alphabet, c *verifmc.Check, n *c27Counters) *c27State {
 func (s *c27State) latest() map[crypto.Key]c27Rec {
 	m := map[crypto.Key]c27Rec{}
 	for _, r := range s.Hist {
-		if o, ok := m[r.Signer]; !ok || r.Ts >= o.Ts {
+		if o, ok := m[r.Signer]; !ok || r.Ts > o.Ts {
 			m[r.Signer] = r
 		}
 	}
@@ -475,21 +480,67 @@ func (s *c27State) check(report func(key, desc string)) {
 	}
 }
 
-// enabled is the driver precondition: timestamps must not decrease, and must
-// strictly increase per signer. equalTs tells whether another record already
-// carries the event's timestamp.
-func (a *c27Alphabet) enabled(hist []c27Rec, e int) (ok, equalTs bool) {
+// c27Flags describes where an enabled event's timestamp lies relative to the
+// records that exist.
+type c27Flags struct {
+	EqualTs    bool // another record already carries the event's timestamp
+	OutOfOrder bool // stamped before the newest record
+	Boundary   bool // the newest record is exactly at timestamp + 12h (last one the look-ahead still reads)
+	Inside     bool // stamped between two records of the event's own signer
+}
+
+// enabled is the driver precondition on timestamps. They are NOT monotone: an
+// event may be stamped before records that already exist, as long as
+//   - the newest record is still inside the code's look-ahead
+//     (timestamp + KernelNodeAcceptPeriodMinimum >= newest record): beyond it
+//     the write functions cannot see the newer records at all,
+//   - it is stamped after the record it acts upon (remove: the signer's newest
+//     ACCEPTED record; accept/cancel: its newest PLEDGING record; when there is
+//     no such record, or for a pledge, the signer's first record), and
+//   - no record of the same signer carries that timestamp (the record key is
+//     (timestamp, signer): that would be an overwrite).
+func (a *c27Alphabet) enabled(hist []c27Rec, e int) (ok bool, f c27Flags) {
 	ev := a.Events[e]
 	ts, signer := a.Times[ev.T], a.Signers[ev.S].PublicSpendKey
+	want := map[int]string{c27Accept: common.NodeStatePledging, c27Cancel: common.NodeStatePledging, c27Remove: common.NodeStateAccepted}[ev.Op]
+	var newest, first, acted, above uint64
 	for _, r := range hist {
-		if r.Ts > ts || (r.Signer == signer && r.Ts >= ts) {
-			return false, false
+		if r.Ts > newest {
+			newest = r.Ts
 		}
 		if r.Ts == ts {
-			equalTs = true
+			f.EqualTs = true
+		}
+		if r.Signer != signer {
+			continue
+		}
+		if r.Ts == ts {
+			return false, f
+		}
+		if first == 0 || r.Ts < first {
+			first = r.Ts
+		}
+		if r.State == want && r.Ts > acted {
+			acted = r.Ts
+		}
+		if r.Ts > ts {
+			above = r.Ts
 		}
 	}
-	return true, equalTs
+	if ts+uint64(config.KernelNodeAcceptPeriodMinimum) < newest {
+		return false, f
+	}
+	bound := acted
+	if bound == 0 {
+		bound = first
+	}
+	if ts <= bound {
+		return false, f
+	}
+	f.OutOfOrder = ts < newest
+	f.Boundary = ts+uint64(config.KernelNodeAcceptPeriodMinimum) == newest
+	f.Inside = above > 0
+	return true, f
 }
 
 // apply runs one event through the real code and the oracle. enabled=false
@@ -500,9 +551,13 @@ func (s *c27State) apply(e int, replaying bool, report func(key, desc string)) (
 	ts := s.A.Times[ev.T]
 	signerAddr, payee := s.A.Signers[ev.S], s.A.Payees[ev.P].PublicSpendKey
 	signer := signerAddr.PublicSpendKey
-	ok, equalTs := s.A.enabled(s.Hist, e)
+	ok, flags := s.A.enabled(s.Hist, e)
 	if !ok {
 		return false, false
+	}
+	order := ""
+	if flags.OutOfOrder {
+		order = ":out-of-order"
 	}
 	allowed, why := s.allows(ev.Op, signer, payee)
 	store := s.L.Store
@@ -531,11 +586,14 @@ func (s *c27State) apply(e int, replaying bool, report func(key, desc string)) (
 		if !replaying {
 			s.N.accepted[ev.Op].Add(1)
 			s.C.Outcome("accept:" + op)
-			if equalTs {
+			if flags.EqualTs {
 				s.N.equalTsAccepted.Add(1)
 			}
+			if flags.OutOfOrder {
+				s.N.oooAccepted[ev.Op].Add(1)
+			}
 			if !allowed {
-				report("accepted-"+op+":"+why, fmt.Sprintf("%s was recorded although the statement forbids it (%s); history before: [%s]", s.A.name(e), why, s.A.render(c27Sort(s.Hist[:len(s.Hist)-1]), false)))
+				report("accepted-"+op+":"+why+order, fmt.Sprintf("%s was recorded although the statement forbids it (%s); history before: [%s]", s.A.name(e), why, s.A.render(c27Sort(s.Hist[:len(s.Hist)-1]), false)))
 			}
 			s.canonical(signer)
 		}
@@ -546,12 +604,21 @@ func (s *c27State) apply(e int, replaying bool, report func(key, desc string)) (
 		if why == "payee-mismatch" {
 			s.N.mismatchReject.Add(1)
 		}
+		if flags.OutOfOrder {
+			s.N.oooRejected[ev.Op].Add(1)
+			if flags.Boundary {
+				s.N.boundaryRejected.Add(1)
+			}
+			if flags.Inside && ev.Op == c27Remove && why == "node-not-accepted-but-"+common.NodeStateRemoved {
+				s.N.reRemoveInside.Add(1)
+			}
+		}
 		after := store.VerifDump(graphPrefixNodeStateQueue)
 		if fmt.Sprint(verifmc.SortedKeys(before)) != fmt.Sprint(verifmc.SortedKeys(after)) || !c27SameMap(before, after) {
 			report("rejected-but-history-changed:"+op, fmt.Sprintf("%s was rejected (%v %v) but the NODESTATEQUEUE records changed", s.A.name(e), p, err))
 		}
 		if allowed {
-			s.C.Stricter(op + " allowed by the statement but rejected: " + class)
+			s.C.Stricter(op + " allowed by the statement but rejected: " + class + order)
 		}
 	}
 	if !replaying {
@@ -575,7 +642,7 @@ func c27SameMap(a, b map[string]string) bool {
 // canonical counts the canonical lifecycles reached with every step accepted.
 func (s *c27State) canonical(signer crypto.Key) {
 	seq := ""
-	for _, r := range s.Hist {
+	for _, r := range c27Sort(s.Hist) {
 		if r.Signer == signer {
 			seq += r.State[:1]
 		}
@@ -740,10 +807,11 @@ func TestMC_C27(t *testing.T) {
 	defer c.Finish()
 	a := c27NewAlphabet()
 	n := &c27Counters{}
-	c.SetRule("BFS over all sequences of node operations {pledge, accept, cancel, remove}(signer, payee)@ts with signer in a pool of 3 new keys, payee in a pool of 2 (so accept/cancel/remove carry keys that match or do not match the record), plus remove (matching / mismatching payee) and re-pledge of one genesis node; ts in {t, t+1, t+12h, t+12h+1} not below the newest record (equal timestamps across signers are forced) and strictly above the signer's own newest record. Every event is a real node transaction (output type + Extra = signer||payee) finalized by LockInputs(fork) + WriteTransaction + WriteSnapshot without Validate, so valid and invalid operations reach writeNodePledge/Accept/Cancel/Remove through the real writeUTXO dispatch; it spends the output the operation names when that exists and is unspent (pledge output for accept/cancel, accept output for remove), otherwise a 13439 XIN wallet output from a custodian-signed deposit. Canonical state = the durable history (ts, signer, payee, state), identified with the shortest history of accepted events; successors are computed on instances that replayed that history; a rejected event must leave the NODESTATEQUEUE dump unchanged (checked), is a self-loop, and the same instance then tries the next event, a new instance is built after every accepted event; every violation is re-run 5x on a fresh instance with history+event only. Reference model = list of records + the statement's rules; oracle evaluated after every event")
+	c.SetRule("BFS over all sequences of node operations {pledge, accept, cancel, remove}(signer, payee)@ts with signer in a pool of 3 new keys, payee in a pool of 2 (so accept/cancel/remove carry keys that match or do not match the record), plus remove (matching / mismatching payee) and re-pledge of one genesis node; ts in {t, t+1, t+12h, t+12h+1}, NOT monotone: an event may be stamped before, at (equal timestamps across signers are forced) or after the newest record, provided the newest record is within the 12h look-ahead of the write functions (ts+12h >= newest, boundary included), the event is stamped after the record it acts upon (remove: the signer's ACCEPTED record, accept/cancel: its PLEDGING record, otherwise the signer's first record) and does not reuse a timestamp of its own signer; so e.g. a second remove is offered between a node's accept and its first remove. The reference (latest record per signer by timestamp + the statement's rules) and all invariants are evaluated on the SET of records, independent of arrival order. Every event is a real node transaction (output type + Extra = signer||payee) finalized by LockInputs(fork) + WriteTransaction + WriteSnapshot without Validate, so valid and invalid operations reach writeNodePledge/Accept/Cancel/Remove through the real writeUTXO dispatch; it spends the output the operation names when that exists and is unspent (pledge output for accept/cancel, accept output for remove), otherwise a 13439 XIN wallet output from a custodian-signed deposit. Canonical state = the durable history (ts, signer, payee, state), identified with the shortest history of accepted events; successors are computed on instances that replayed that history; a rejected event must leave the NODESTATEQUEUE dump unchanged (checked), is a self-loop, and the same instance then tries the next event, a new instance is built after every accepted event; every violation is re-run 5x on a fresh instance with history+event only. Reference model = list of records + the statement's rules; oracle evaluated after every event")
 	c.Assume(
 		"storage layer only: common.Validate (validateNode*) and the kernel's validateNode*Snapshot are not called; the full layer of DESIGN.md C27 (same events through validation, timestamps going backwards or leaving the hour windows) is out of scope of this check",
-		"timestamps never decrease and strictly increase per signer (the record key is (timestamp, signer); the kernel layer never produces an overwrite); with non-decreasing timestamps the +12h read thresholds of the write functions never exclude a record",
+		"out-of-order timestamps stay inside the look-ahead of the write functions: timestamp + KernelNodeAcceptPeriodMinimum (12h) >= newest record. Further back the functions do not read the newer records at all (e.g. a second remove stamped more than 12h before the first one finds the node ACCEPTED and is recorded on the unchanged tree); the storage layer relies on the kernel's timestamp rules there, which is the full layer of C27",
+		"an operation is stamped after the record it acts upon (the transaction it spends is finalized earlier) and never reuses a timestamp of its own signer (the record key is (timestamp, signer); the kernel layer never produces an overwrite)",
 		"signatures, input ownership and amounts of the node transactions are not examined by the storage layer; Badger transactions are atomic",
 		"one snapshot per node transaction, written on a genesis chain's head round",
 	)
@@ -789,6 +857,15 @@ func TestMC_C27(t *testing.T) {
 	c.Set("canonical_pledge_cancel", n.pc.Load())
 	c.Set("accepted_with_equal_timestamp_of_other_signer", n.equalTsAccepted.Load())
 	c.Set("rejected_for_payee_mismatch_only", n.mismatchReject.Load())
+	var oooA, oooR int64
+	for op, name := range c27OpNames {
+		c.Set("out_of_order_accepted_"+name, n.oooAccepted[op].Load())
+		c.Set("out_of_order_rejected_"+name, n.oooRejected[op].Load())
+		oooA += n.oooAccepted[op].Load()
+		oooR += n.oooRejected[op].Load()
+	}
+	c.Set("out_of_order_rejected_at_lookahead_boundary", n.boundaryRejected.Load())
+	c.Set("second_remove_between_accept_and_first_remove_rejected", n.reRemoveInside.Load())
 	c.Set("events_spending_the_named_output", n.naturalInput.Load())
 	c.Set("events_spending_a_wallet_output", n.fundedInput.Load())
 	c.Set("wallet_deposits_finalized", n.deposits.Load())
@@ -800,5 +877,9 @@ func TestMC_C27(t *testing.T) {
 		c.Require(n.par.Load() > 0 && n.pc.Load() > 0, "canonical sequences not reached inside the BFS: pledge-accept-remove %d, pledge-cancel %d", n.par.Load(), n.pc.Load())
 		c.Require(n.equalTsAccepted.Load() > 0, "no record with a timestamp equal to another signer's record")
 		c.Require(n.mismatchReject.Load() > 0, "no rejection for mismatching payee")
+		c.Require(oooA > 0 && oooR > 0, "out-of-order events: accepted %d rejected %d", oooA, oooR)
+		c.Require(n.oooRejected[c27Remove].Load() > 0 && n.oooAccepted[c27Remove].Load() > 0 && n.oooAccepted[c27Pledge].Load() > 0, "out-of-order removes / pledges not covered")
+		c.Require(n.reRemoveInside.Load() > 0, "no second remove stamped between a node's accept and its first remove")
+		c.Require(n.boundaryRejected.Load() > 0, "look-ahead boundary (newest record at ts+12h) not exercised")
 	}
 }
